@@ -125,3 +125,30 @@ Proof.
   destruct (Hu eq_refl) as [H1 H2]. destruct o; try contradiction; destruct (n =? 0); eexists; reflexivity.
 Qed.
 Print Assumptions C07_ctor_obj_rejects.
+
+(* ------------------------------------------------------------------ constructor given a list of objects of the receiver's class *)
+Theorem C07_ctor_objs_sound : forall r l d, ctor_objs r l = Ok d -> all_member r d.
+Proof.
+  intros r l d H. unfold ctor_objs in H. destruct l as [|h t]; [injection H as <-; constructor|].
+  set (L := h :: t) in *. clearbody L.
+  destruct (negb (exact r (ocl h))); [discriminate|].
+  destruct (forallb (fun x => exact r (ocl x)) L) eqn:E1; cbn [negb] in H; [|discriminate].
+  destruct (forallb (fun x => olen x =? 1) L) eqn:E2; cbn [negb] in H; [|discriminate].
+  injection H as <-. rewrite forallb_forall in E1, E2. apply Forall_forall. intros e He. apply in_map_iff in He.
+  destruct He as [x [<- Hx]]. unfold opd_A. rewrite (E2 _ Hx). apply exact_member, E1, Hx.
+Qed.
+Print Assumptions C07_ctor_objs_sound.
+(* an element that is empty or multi-valued, at any position, makes the constructor raise (fix 2eab8b7) *)
+Theorem C07_ctor_objs_not_single_rejected : forall r l x, In x l -> olen x <> 1 -> exists e, ctor_objs r l = Err e.
+Proof.
+  intros r l x Hin Hl. unfold ctor_objs. destruct l as [|h t]; [contradiction|]. set (L := h :: t) in *. clearbody L.
+  destruct (negb (exact r (ocl h))); [eexists; reflexivity|]. destruct (negb (forallb _ L)); [eexists; reflexivity|].
+  assert (E : forallb (fun x => olen x =? 1) L = false).
+  { destruct (forallb (fun x => olen x =? 1) L) eqn:E; auto. rewrite forallb_forall in E. specialize (E _ Hin). apply Nat.eqb_eq in E. contradiction. }
+  rewrite E. eexists; reflexivity.
+Qed.
+Print Assumptions C07_ctor_objs_not_single_rejected.
+Example C07_ctor_objs_nonvacuous :
+  (exists d, ctor_objs oSE3 [Opd oSE3 1; Opd oSE3 1] = Ok d /\ length d = 2) /\ ctor_objs oSE3 [Opd oSE3 1; Opd oSE3 2] = Err ValueError /\
+  ctor_objs oSO3 [Opd oSO3 1; Opd oSE3 1] = Err AssertionError.
+Proof. repeat split. eexists; split; reflexivity. Qed.
